@@ -1,0 +1,60 @@
+//go:build verif
+
+package lalr
+
+// Contracts for the deductive verifier under /verif (comment-only; build tag verif).
+
+// ---- gotoState: lookup in the sorted (from, to) pairs of one symbol ----
+
+//@ pred evenSeg(lo int, hi int, n int) = 0 <= lo && lo <= hi && hi <= n && lo % 2 == 0 && hi % 2 == 0
+//@ pred sortedFrom(ft []int, lo int, hi int) = forall p in lo..hi :: forall q in p+1..hi :: (p % 2 == 0 && q % 2 == 0) ==> ft[p] < ft[q]
+
+//@ func DefaultEnc.gotoState
+//@   requires 0 <= symbol && symbol + 1 < len(enc.Goto)
+//@   requires evenSeg(enc.Goto[symbol], enc.Goto[symbol+1], len(enc.FromTo))
+//@   requires sortedFrom(enc.FromTo, enc.Goto[symbol], enc.Goto[symbol+1])
+//@   requires forall p in enc.Goto[symbol]..enc.Goto[symbol+1] :: p % 2 == 1 ==> enc.FromTo[p] >= 0
+//@   ensures result == -1 ==> forall p in enc.Goto[symbol]..enc.Goto[symbol+1] :: p % 2 == 0 ==> enc.FromTo[p] != state
+//@   ensures result != -1 ==> exists p in enc.Goto[symbol]..enc.Goto[symbol+1] :: p % 2 == 0 && enc.FromTo[p] == state && enc.FromTo[p+1] == result
+//@   loop 1:
+//@     invariant enc.Goto[symbol] <= i && i <= max && i % 2 == 0 && max == enc.Goto[symbol+1] && min == enc.Goto[symbol]
+//@     invariant forall p in min..i :: p % 2 == 0 ==> enc.FromTo[p] != state
+//@     decreases max - i
+//@   loop 2:
+//@     invariant enc.Goto[symbol] <= min && min <= max && max <= enc.Goto[symbol+1] && min % 2 == 0 && max % 2 == 0
+//@     invariant forall p in enc.Goto[symbol]..min :: p % 2 == 0 ==> enc.FromTo[p] < state
+//@     invariant forall p in max..enc.Goto[symbol+1] :: p % 2 == 0 ==> enc.FromTo[p] > state
+//@     decreases max - min
+
+// ---- runtime lookahead decision lists ----
+
+//@ func Lookahead.Accepts
+//@   ensures ok <==> exists k in 0..len(l.Predicates) :: l.Predicates[k].Input == input
+//@   ensures ok ==> exists k in 0..len(l.Predicates) :: l.Predicates[k].Input == input && l.Predicates[k].Negated == negated && forall j in 0..k :: l.Predicates[j].Input != input
+//@   loop 1:
+//@     invariant 0 <= @i && @i <= len(l.Predicates)
+//@     invariant forall j in 0..@i :: l.Predicates[j].Input != input
+
+// accepts(la, input, neg): alternative la mentions input with polarity neg (first mention wins).
+//@ pred mentions(la Lookahead, input int32) = exists k in 0..len(la.Predicates) :: la.Predicates[k].Input == input
+//@ pred accepts(la Lookahead, input int32, neg bool) = exists k in 0..len(la.Predicates) :: la.Predicates[k].Input == input && la.Predicates[k].Negated == neg && forall j in 0..k :: la.Predicates[j].Input != input
+
+// pickLookahead: when ok, index is the only alternative that mentions input with the returned
+// polarity; when every alternative mentions input and some polarity has exactly one owner, ok.
+//@ func pickLookahead
+//@   ensures ok ==> 0 <= index && index < len(lookaheads) && accepts(lookaheads[index], input, negated)
+//@   ensures ok ==> forall k in 0..len(lookaheads) :: mentions(lookaheads[k], input)
+//@   ensures ok ==> forall k in 0..len(lookaheads) :: k != index ==> !accepts(lookaheads[k], input, negated)
+//@   ensures ok && negated ==> !(exists p in 0..len(lookaheads) :: accepts(lookaheads[p], input, false) && forall q in 0..len(lookaheads) :: q != p ==> !accepts(lookaheads[q], input, false))
+//@   ensures !ok && (forall k in 0..len(lookaheads) :: mentions(lookaheads[k], input)) ==> !(exists p in 0..len(lookaheads) :: accepts(lookaheads[p], input, false) && forall q in 0..len(lookaheads) :: q != p ==> !accepts(lookaheads[q], input, false))
+//@   ensures !ok && (forall k in 0..len(lookaheads) :: mentions(lookaheads[k], input)) ==> !(exists p in 0..len(lookaheads) :: accepts(lookaheads[p], input, true) && forall q in 0..len(lookaheads) :: q != p ==> !accepts(lookaheads[q], input, true))
+//@   ensures !ok ==> index == -1 || index == -2
+//@   loop 1:
+//@     invariant 0 <= @i && @i <= len(lookaheads) && -2 <= pos && pos < @i && -2 <= neg && neg < @i
+//@     invariant forall k in 0..@i :: mentions(lookaheads[k], input)
+//@     invariant pos >= 0 ==> accepts(lookaheads[pos], input, false) && forall k in 0..@i :: k != pos ==> !accepts(lookaheads[k], input, false)
+//@     invariant neg >= 0 ==> accepts(lookaheads[neg], input, true) && forall k in 0..@i :: k != neg ==> !accepts(lookaheads[k], input, true)
+//@     invariant pos == -1 ==> forall k in 0..@i :: !accepts(lookaheads[k], input, false)
+//@     invariant neg == -1 ==> forall k in 0..@i :: !accepts(lookaheads[k], input, true)
+//@     invariant pos == -2 ==> exists p in 0..@i :: exists q in p+1..@i :: accepts(lookaheads[p], input, false) && accepts(lookaheads[q], input, false)
+//@     invariant neg == -2 ==> exists p in 0..@i :: exists q in p+1..@i :: accepts(lookaheads[p], input, true) && accepts(lookaheads[q], input, true)
